@@ -1,10 +1,18 @@
 # C17 — removing / re-creating loggers never loses statements nor frees state in use (registry part)
 FORBID = [r'get_local_thread_context', r'16PatternFormatter(C2|D2)', r'^_ZN5quill2v94SinkD', r'^_ZNSt16_Sp_counted_baseILN9__gnu_cxx12_Lock_policyE2EE(10_M_release|24_M_release_last_use)']
-QUERIES = [
-  Q('registry', 'C17_registry.cpp', 'h_registry', forbid=FORBID + [r'^_ZN5quill2v96detail10LoggerBaseD[012]Ev$', r'^_ZN7TLoggerD[12]Ev$'], hooks=[r'^_ZN7TLoggerD0Ev=vh_destroy'], models=['m_throw.c', 'm_env.c'], libmodels=['m_string.c', 'm_stl.c'], cdefs=['VLL_STRBLOCK=64'], unwind=5, unwindset=['strlen.0:40', 'memcmp.0:16', '_ZNSt7__cxx1112basic_stringIcSt11char_traitsIcESaIcEE9_M_assignERKS4_.0:16', '_ZNSt7__cxx1112basic_stringIcSt11char_traitsIcESaIcEE12_M_constructEmc.0:16'], timeout=280,
-    bounds='real LoggerManager on names from {a,b,c} (symbolic): create n1, create n2, create n1 again, look-ups, remove one (symbolic which), backend clean-up with a symbolic "queues and buffers empty" answer, re-create the removed name',
-    what='create/get idempotent and the registry stays sorted and duplicate-free; a removed logger vanishes from look-ups at once, is destroyed only by the clean-up and only when the backend reports nothing refers to it (otherwise the request stays pending), never a valid logger; the returned names are exactly the destroyed ones; the name can be re-created as a new object'),
-]
-BOUNDS = 'two loggers, one removal, one clean-up pass'
-OUTSIDE = 'the backend side (that _check_frontend_queues_and_cached_transit_events_empty is right, flag order, sink pruning by SinkManager, remove_logger_blocking hand-over, spinlock happens-before under weak memory): backend kernels not under the memory cap / not built - NOT claimed'
-ASSUMPTIONS = ['loggers are a minimal LoggerBase subclass with the real LoggerBase constructor; the backend "everything empty" predicate is a symbolic callback']
+def reg(i1, i2, i3, tier):
+    return Q('registry_%d%d%d' % (i1, i2, i3), 'C17_registry.cpp', 'h_registry', defines=['I1=%d' % i1, 'I2=%d' % i2, 'I3=%d' % i3], forbid=FORBID + [r'^_ZN5quill2v96detail10LoggerBaseD[012]Ev$', r'^_ZN7TLoggerD[12]Ev$'], hooks=[r'^_ZN7TLoggerD0Ev=vh_destroy'], models=['m_throw.c', 'm_env.c'], libmodels=['m_string.c', 'm_stl.c'], cdefs=['VLL_STRBLOCK=64', 'VLL_NEW_HOOK'], unwind=8, unwindset=['strlen.0:40', 'memcmp.0:16', 'vll_memcpy.0:70', 'vll_memmove.0:70', 'vll_memmove.1:70', 'vll_memset.0:70'], timeout=280, tier=tier, byteloops=True,
+    bounds='real LoggerManager, names %s/%s/%s (concrete per query): create n1, create n2, create n1 again, look-ups, remove one (symbolic which), backend clean-up with a symbolic "queues and buffers empty" answer, re-create the removed name' % ('abc'[i1], 'abc'[i2], 'abc'[i3]),
+    what='create/get idempotent and the registry stays sorted and duplicate-free; a removed logger vanishes from look-ups at once, is destroyed only by the clean-up and only when the backend reports nothing refers to it (otherwise the request stays pending), never a valid logger; the returned names are exactly the destroyed ones; the name can be re-created as a new object')
+REG = [reg(0, 1, 2, 'unregistered'), reg(1, 0, 1, 'unregistered')]      # registry harness: symbolic execution does not finish (string lengths stay symbolic), kept unregistered
+import importlib.util, os
+_spec = importlib.util.spec_from_file_location('c03', os.path.join(os.path.dirname(__file__), 'C03.py')); _m = importlib.util.module_from_spec(_spec); _m.Q = Q; _spec.loader.exec_module(_m)
+QUERIES = REG + [q for q in _m.QUERIES if q.name.startswith('K4_all_empty') or q.name.startswith('K1_read_decode')]
+BOUNDS = 'K4: 2 contexts x (0..1 queued record, 0..1 buffered event); K1: <= 3 records'
+OUTSIDE = 'the registry itself (LoggerManager create/get/remove/cleanup, SinkManager pruning: harness harness/C17_registry.cpp does not finish symbolic execution), _logger_removal_flags hand-over of remove_logger_blocking, sink destruction and file closing, the spinlock under weak memory, CsvWriter: NOT claimed'
+ASSUMPTIONS = ['the refresh of the context cache from the registry is a no-op hook (the cache is given)']
+MANIFEST = {
+ 'text': 'Reduced scope (one mechanism of the property): the backend frees removed loggers only while nothing refers to them - decided on the real code as two kernels: K4, _check_frontend_queues_and_cached_transit_events_empty (the predicate _cleanup_invalidated_loggers passes to the registry) is true only if NO queue of any thread holds a record and NO backend ring holds an event; K1, every record decoded from a queue carries its logger pointer into the ring unchanged, so a statement logged before the removal is either still queued or buffered (and blocks the free) or already dispatched. The registry operations themselves (create/get idempotence, removal, re-creation, sink pruning, remove_logger_blocking flags) are NOT claimed: their harness does not finish.',
+ 'note': 'K4: 2 contexts. Same queries as C03 K1/K4. Trusted: clang IR, translator, CBMC.',
+ 'technique': 'CBMC/SAT over clang IR of the real backend emptiness predicate and read/decode loop with symbolic queue/ring occupancy; native replay',
+}
